@@ -18,7 +18,7 @@ CLAIM = dict(
           "complete and which are `_partial` (open lemma as explicit hypothesis)."),
     technique="Lean 4 theorems over a hand-written model + differential correspondence + Lean spec as oracle")
 
-THEOREMS = ["removeDefault_equiv", "removeDefault_length", "removeDefault_target", "inv_routeEquiv", "inv_init", "apply_equiv"]
+THEOREMS = ["removeDefault_equiv", "removeDefault_length", "removeDefault_target", "inv_routeEquiv", "inv_init", "apply_equiv", "insertionIndex_correct", "refine_ok", "orderedCovering_inv", "orderedCovering_equiv", "orderedCovering_target", "minimise_equiv", "runMethod_equiv", "runMethod_target", "minimiseTable_equiv", "minimiseTable_failure", "minimiseTables_equiv"]
 
 RULE = ("tables of 0-40 entries over 3-10 active key bits embedded at random positions of the 32-bit space (other "
         "positions all-X or fixed to a common value), ternary patterns with table-specific X density, orthogonal "
@@ -202,11 +202,13 @@ def gen_table(rng, kind=None, max_n=40):
 
 def gen_target(rng, n):
     r = rng.random()
-    if r < 0.4:
+    if r < 0.35:
         return None
-    if r < 0.5:
+    if r < 0.42:
         return 0
-    return rng.randint(0, n + 1)
+    if r < 0.6:
+        return rng.randint(0, n + 1)
+    return rng.randint(n // 3, n + 1)
 
 
 METHOD_LISTS = [["rd", "oc"], ["rd", "oc"], ["rd", "oc"], ["oc"], ["rd"], ["oc", "rd"], ["rd", "rd", "oc"]]
@@ -233,8 +235,8 @@ def run_impl(c):
     T, t, t2 = c["table"], c["target"], c["target2"]
     out = {}
     out["rd"] = call(lambda: {"ok": from_impl(rdm.minimise(to_impl(T), t))})
+    out["rd_none"] = call(lambda: {"ok": from_impl(rdm.minimise(to_impl(T), None))})
     if c["kind"] == "any":
-        out["rd_nocheck_none"] = call(lambda: {"ok": from_impl(rdm.minimise(to_impl(T), None))})
         return out
 
     def oc(table, target, aliases, no_raise):
@@ -245,7 +247,9 @@ def run_impl(c):
     if "ok" in out["oc_nr"]:
         s1 = out["oc_nr"]["ok"]
         out["oc2"] = call(lambda: oc(s1["table"], None, s1["aliases"], False))
+    out["oc_none"] = call(lambda: oc(T, None, [], False))
     out["ocmin"] = call(lambda: {"ok": from_impl(ocm.minimise(to_impl(T), t))})
+    out["ocmin_none"] = call(lambda: {"ok": from_impl(ocm.minimise(to_impl(T), None))})
     out["mt"] = call(lambda: {"ok": from_impl(mm.minimise_table(to_impl(T), t, impl_methods(c["methods"])))})
     out["mt_default"] = call(lambda: {"ok": from_impl(mm.minimise_table(to_impl(T), t2))})
     if c["internals"]:
@@ -265,9 +269,9 @@ def model_reqs(c, impl):
     """requests for the model mirroring run_impl; list of (name, request)"""
     T, t, t2 = c["table"], c["target"], c["target2"]
     S = "c04"
-    reqs = [("rd", {"suite": S, "op": "rd", "table": T, "target": t, "check": True})]
+    reqs = [("rd", {"suite": S, "op": "rd", "table": T, "target": t, "check": True}),
+            ("rd_none", {"suite": S, "op": "rd", "table": T, "target": None, "check": True})]
     if c["kind"] == "any":
-        reqs.append(("rd_nocheck_none", {"suite": S, "op": "rd", "table": T, "target": None, "check": True}))
         return reqs
     reqs.append(("oc", {"suite": S, "op": "oc", "table": T, "target": t, "aliases": [], "no_raise": False}))
     reqs.append(("oc_nr", {"suite": S, "op": "oc", "table": T, "target": t2, "aliases": [], "no_raise": True}))
@@ -275,7 +279,9 @@ def model_reqs(c, impl):
         s1 = impl["oc_nr"]["ok"]
         reqs.append(("oc2", {"suite": S, "op": "oc", "table": s1["table"], "target": None,
                              "aliases": s1["aliases"], "no_raise": False}))
+    reqs.append(("oc_none", {"suite": S, "op": "oc", "table": T, "target": None, "aliases": [], "no_raise": False}))
     reqs.append(("ocmin", {"suite": S, "op": "ocmin", "table": T, "target": t}))
+    reqs.append(("ocmin_none", {"suite": S, "op": "ocmin", "table": T, "target": None}))
     reqs.append(("mt", {"suite": S, "op": "mt", "table": T, "target": t, "methods": c["methods"]}))
     reqs.append(("mt_default", {"suite": S, "op": "mt", "table": T, "target": t2, "methods": ["rd", "oc"]}))
     if c["internals"]:
@@ -336,7 +342,17 @@ def judge(ctx, c, impl, model, orc):
             ctx.mismatch("c04." + name, "impl=%r model=%r" % (res, m), desc)
     # ---- property oracle
     targets = {"rd": c["target"], "oc": c["target"], "oc_nr": None, "oc2": None, "ocmin": c["target"],
-               "mt": c["target"], "mt_default": c["target2"], "rd_nocheck_none": None}
+               "mt": c["target"], "mt_default": c["target2"], "rd_none": None, "oc_none": None, "ocmin_none": None}
+    # sizes reached by the unbounded runs (for the "best size reached" clause)
+    reach = {}
+    for nm, src in (("rd", "rd_none"), ("oc", "oc_none"), ("ocmin", "ocmin_none")):
+        tb0 = out_table(impl.get(src, {}))
+        if tb0 is not None:
+            reach[nm] = len(tb0)
+    best = {"rd": reach.get("rd"), "oc": reach.get("oc"), "ocmin": reach.get("ocmin")}
+    for nm, ms in (("mt", c.get("methods", [])), ("mt_default", ["rd", "oc"])):
+        sizes = [n] + [reach.get({"rd": "rd", "oc": "ocmin"}[x]) for x in ms]
+        best[nm] = None if any(x is None for x in sizes) else min(sizes)
     for name, res in impl.items():
         if name in ("best", "ins"):
             if any(isinstance(x, dict) and "exc" in x for x in (res if isinstance(res, list) else [res])):
@@ -354,6 +370,9 @@ def judge(ctx, c, impl, model, orc):
             if t is None or not isinstance(res.get("final"), int) or res["final"] <= t or res["target"] != t:
                 ctx.violation("minfailed-misreport", "%s raised MinimisationFailedError(target=%r, final=%r) with target %r"
                               % (name, res.get("target"), res.get("final"), t), desc)
+            elif best.get(name) is not None and res["final"] != best[name]:
+                ctx.violation("minfailed-not-best", "%s raised MinimisationFailedError(final=%r) but the best size reached "
+                              "is %r (target %r)" % (name, res["final"], best[name], t), desc)
             continue
         tb = out_table(res)
         ctx.tag(name + "_ok")
@@ -367,9 +386,6 @@ def judge(ctx, c, impl, model, orc):
             ctx.violation("longer", "%s returned %d entries for a %d-entry table" % (name, len(tb), n), desc)
         if t is not None and len(tb) > t:
             ctx.violation("target-missed", "%s returned %d entries without error for target %d" % (name, len(tb), t), desc)
-    # best size reached: a failing ordered_covering / minimise reports the size the unbounded run reaches
-    if "err" in impl.get("oc", {}) and "ok" in impl.get("oc_nr", {}) and False:
-        pass
     nontriv = False
     r = impl.get("oc_nr")
     if r and "ok" in r and len(r["ok"]["table"]) < n:
